@@ -3,7 +3,9 @@ package props
 import (
 	"fmt"
 	z "github.com/Oudwins/zog"
+	"github.com/Oudwins/zog/parsers/zjson"
 	"reflect"
+	"strings"
 
 	"verifharness/model"
 )
@@ -100,6 +102,39 @@ var preludeSchema = z.Struct(z.Schema{
 	"age": z.Int().GT(18).Catch(21),
 })
 
+// preludeDeep: three context levels (struct, list, struct) with struct-level callbacks that insist on being handed
+// their own node's value, as user code written after the documentation (val.(*Order)) does.
+type preludeLine struct {
+	Sku string
+	Qty int
+}
+type preludeOrder struct {
+	ID    string
+	Lines []preludeLine
+}
+
+var preludeDeep = z.Struct(z.Schema{
+	"ID": z.String().Required(),
+	"lines": z.Slice(z.Struct(z.Schema{"sku": z.String().Required().Min(2), "qty": z.Int().GT(0)}).TestFunc(func(v any, ctx z.Ctx) bool {
+		if _, ok := v.(*preludeLine); !ok {
+			panic(fmt.Sprintf("a struct-level test of a list element was handed %T, not a pointer to its element", v))
+		}
+		return true
+	})).Min(1),
+}).TestFunc(func(v any, ctx z.Ctx) bool {
+	if _, ok := v.(*preludeOrder); !ok {
+		panic(fmt.Sprintf("the root struct's test was handed %T, not a pointer to the destination", v))
+	}
+	return true
+}).PostTransform(func(v any, ctx z.Ctx) error {
+	if _, ok := v.(*preludeOrder); !ok {
+		panic(fmt.Sprintf("the root struct's PostTransform was handed %T, not a pointer to the destination", v))
+	}
+	return nil
+})
+
+var preludePtr = z.Ptr(z.Struct(z.Schema{"name": z.String().Required()}))
+
 type preludeDest struct {
 	User struct {
 		Name string
@@ -126,7 +161,28 @@ func processPrelude() {
 		var d2 preludeDest
 		preludeSchema.Parse(map[string]any{"user": map[string]any{"name": "abcdef", "tags": []any{"a", "boom"}}, "age": 30}, &d2)
 	}()
+	// a request with an undecodable body for an optional-body endpoint (pointer root) ...
+	var pp *struct{ Name string }
+	if errs := preludePtr.Parse(zjson.Decode(strings.NewReader(`{"name": "tr`)), &pp); errs != nil {
+		z.Issues.CollectMap(errs)
+	}
+	// ... failing executions of a top-level primitive (list results), one handed back, one dropped ...
+	var s1 string
+	if errs := preludeString.Parse("ab", &s1); errs != nil {
+		z.Issues.CollectList(errs)
+	}
+	_ = preludeString.Validate(&s1)
+	// ... and ordinary traffic: valid and invalid orders, three context levels deep
+	var o preludeOrder
+	preludeDeep.Parse(map[string]any{"ID": "o1", "lines": []any{map[string]any{"sku": "ab", "qty": 2}, map[string]any{"sku": "cd", "qty": 1}}}, &o)
+	if errs := preludeDeep.Parse(map[string]any{"ID": "o2", "lines": []any{map[string]any{"sku": "a", "qty": 0}}}, &o); errs != nil {
+		z.Issues.CollectMap(errs)
+	}
+	o = preludeOrder{ID: "o3", Lines: []preludeLine{{Sku: "xy", Qty: 1}}}
+	preludeDeep.Validate(&o)
 }
+
+var preludeString = z.String().Required().Min(5, z.IssueCode("prelude_min")).Email(z.IssueCode("prelude_email"))
 
 // conform builds the case, runs the specification and runs zog reps times,
 // comparing issues (multiset), nil-ness, on success the whole destination
@@ -158,6 +214,12 @@ func conform(c model.Case, reps int, prefill, checkDest, checkRan bool) (*confor
 		}
 		if res.NoIssues() != (len(spec.Issues) == 0) {
 			return out, fmt.Sprintf("nil-ness: result nil=%v but %d violations expected", res.NoIssues(), len(spec.Issues)), ""
+		}
+		// the result belongs to the caller: it still lists exactly these violations after the process went on with
+		// other (failing, list- and map-returning) executions
+		processPrelude()
+		if again := res.Norm(false); !model.EqualIss(got, again) {
+			return out, fmt.Sprintf("the returned issues changed while the caller held them and other executions ran (run %d): were %s, now %s", r, fmtIss(got), fmtIss(again)), ""
 		}
 		if checkDest && len(spec.Issues) == 0 && !spec.DestUnknown {
 			g, w := model.CanonJSON(res.Dest.Elem()), model.CanonJSON(exp)
